@@ -878,6 +878,12 @@ func VProgram(set string, i int) (bin []byte, params, results []byte, mem bool, 
 		ps = vT2Reuse([]uint32{0, 0xffff, 0x80000000, 0xfffffff8})
 	case "T6":
 		ps = vT6
+	case "T6m": // the members of T6 that access memory (lane loads/stores, scalars fused from loads)
+		for _, q := range vT6 {
+			if q.mem {
+				ps = append(ps, q)
+			}
+		}
 	}
 	count = len(ps)
 	if i >= count {
